@@ -1,4 +1,6 @@
 import Refine.Model.SmoothInterp
+import Refine.Model.Metric
+import Refine.Lemmas.MetricInterp
 import Refine.Lemmas.ScalarReal
 import Mathlib.Tactic.Ring
 import Mathlib.Tactic.FieldSimp
@@ -25,5 +27,28 @@ theorem trialPos_real (ideal original : V3 ℝ) (k : Nat) :
   unfold trialPos
   simp only [add_eq, sub_eq, mul_eq, ofInt_eq, backoffAt_real]
   refine ⟨?_, ?_, ?_⟩ <;> (push_cast; ring)
+
+/-! ### a log-linear tetrahedral background -/
+
+open Refine Refine.Model.Matrix Refine.Model.Metric in
+open Refine.Model.Geom (V3 B4) in
+/-- a tetrahedral background whose vertex logs are an affine function of position: the kernel `Bg.interp` is
+    `ref_metric_interpolate_node`'s (`Model/Metric.interpolateNode`) on the four vertex logs of the donor cell -/
+noncomputable def loglinInterp (verts : Int → V3 ℝ × V3 ℝ × V3 ℝ × V3 ℝ) (L0 Lx Ly Lz : M6 ℝ) (c : Int) (b : B4 ℝ) :
+    Option (M6 ℝ × M6 ℝ) :=
+  match interpolateNode 4 b (affM L0 Lx Ly Lz (verts c).1) (affM L0 Lx Ly Lz (verts c).2.1)
+      (affM L0 Lx Ly Lz (verts c).2.2.1) (affM L0 Lx Ly Lz (verts c).2.2.2) with
+  | .ok p => some p
+  | .error _ => none
+
+open Refine Refine.Model.Matrix in
+open Refine.Model.Geom (V3 B4) in
+/-- `b` are barycentric coordinates of `x` in cell `c`: non-negative, sum one, reproduce the point -/
+def BaryDonor (verts : Int → V3 ℝ × V3 ℝ × V3 ℝ × V3 ℝ) (x : V3 ℝ) (c : Int) (b : B4 ℝ) : Prop :=
+  0 ≤ b.b0 ∧ 0 ≤ b.b1 ∧ 0 ≤ b.b2 ∧ 0 ≤ b.b3 ∧ b.b0 + b.b1 + b.b2 + b.b3 = 1 ∧
+  b.b0 * (verts c).1.x + b.b1 * (verts c).2.1.x + b.b2 * (verts c).2.2.1.x + b.b3 * (verts c).2.2.2.x = x.x ∧
+  b.b0 * (verts c).1.y + b.b1 * (verts c).2.1.y + b.b2 * (verts c).2.2.1.y + b.b3 * (verts c).2.2.2.y = x.y ∧
+  b.b0 * (verts c).1.z + b.b1 * (verts c).2.1.z + b.b2 * (verts c).2.2.1.z + b.b3 * (verts c).2.2.2.z = x.z
+
 
 end Refine.Lemmas.SmoothInterp
